@@ -456,3 +456,126 @@ CONTRACTS += [
              ensures=[('every-time-of-day-is-emitted-unchanged', 'len(result) == 1 and result["value"] == value')],
              note='00:00:00 is a time, not the invalid-date marker'),
 ]
+
+# ---- "May twentieth" / "the 20th of May": day number + month name, no year (C09) or with a year in the suffix (C06)
+_NWM_CFG = lambda: Config(tables=dict(month_of_year=Map('str', 'int', 1, 12)),
+                          values=dict(check_both_before_after=Const(False),
+                                      ordinal_extractor=Config(funcs=dict(extract=Returns(ListOf(ER(), 1)))),
+                                      integer_extractor=Config(funcs=dict(extract=Returns(ListOf(ER(), 1)))),
+                                      number_parser=Config(funcs=dict(parse=Returns(_PARSE_NUM)))))
+_NWM_M = 'mon'
+CONTRACTS += [
+    Contract('dp.env.get_year_in_affix.none', BD + '_get_year_in_affix', ['C09'], returns=Expr('-2147483648'),
+             params=dict(self=Opaque(), affix=Opaque(), in_prefix=Opaque()), ensures=[],
+             assumed='no year is written after the month name (the year-less case; Constants.INVALID_YEAR is returned)'),
+    Contract('dp.number_with_month.no_year', BD + 'parse_number_with_month', ['C09'], modular=['id:dp.env.get_year_in_affix.none'],
+             params=dict(N=Int(1, 28), mon=Int(1, 12), self=Rec(DT + 'base_date.py::BaseDateParser', dict(config=_NWM_CFG())), source=Str(),
+                         reference=DateTime(1950, 2090)),
+             regex_env={'month_regex': {'mode': 'match', 'assume': 'M.group() in self.config.month_of_year and '
+                                                                   'self.config.month_of_year[M.group()] == mon'}},
+             ensures=[('timex-leaves-the-year-open', f'result.success and result.timex == "XXXX-" + fmt({_NWM_M}, 2) + "-" + fmt(N, 2)'),
+                      ('future-is-earliest-on-or-after',
+                       f'result.future_value == date_with(earliest_on_or_after({_NWM_M}, N, ordinal_of(reference), reference.year), 0)'),
+                      ('past-is-latest-strictly-before',
+                       f'result.past_value == date_with(latest_before({_NWM_M}, N, ordinal_of(reference), reference.year), 0)')],
+             note='day numbers 1..28 (valid in every month); the month word is any key of the culture table, mon is its number'),
+]
+
+# ---- "from 4 to 22 January 1995" / "between 3 and 12 of September": two day numbers and one month (C10 with a year, C09 without)
+_SC_CFG = Config(tables=dict(month_of_year=Map('str', 'int', 1, 12), day_of_month=Map('str', 'int', 1, 31)))
+_SC_PARSER = Rec(DT + 'base_dateperiod.py::BaseDatePeriodParser', dict(config=_SC_CFG, _inclusive_end_period=Const(False)))
+_SC_M, _SC_D0, _SC_D1 = 'self.config.month_of_year[month_str]', 'self.config.day_of_month[d0s]', 'self.config.day_of_month[d1s]'
+
+
+def _sc_rx(year_expr):
+    return {'month_front_between_regex': {'mode': 'full', 'groups': {'year': year_expr, 'month': 'month_str'},
+                                          'captures': {'day': ['d0s', 'd1s']}}}
+
+
+CONTRACTS += [
+    Contract('dp.dateperiod.simple_case.explicit_year', BDP + '_parse_simple_case', ['C10', 'C06'],
+             params=dict(y=Int(1900, 2099), ys=Expr('str(y)'), month_str=Str(), d0s=Str(), d1s=Str(), self=_SC_PARSER, source=Str(),
+                         reference=DateTime(1950, 2090)),
+             requires=['month_str != ""', 'month_str in self.config.month_of_year', 'd0s in self.config.day_of_month',
+                       'd1s in self.config.day_of_month', f'{_SC_D0} <= {_SC_D1}', f'{_SC_D1} <= 28'],
+             regex_env=_sc_rx('ys'),
+             ensures=[('timex-is-that-range-of-that-year',
+                       f'result.success and result.timex == "(" + date_str(y, {_SC_M}, {_SC_D0}) + "," + date_str(y, {_SC_M}, {_SC_D1}) + '
+                       f'",P" + str({_SC_D1} - {_SC_D0}) + "D)"'),
+                      ('values-are-that-range-independent-of-the-reference',
+                       f'result.future_value[0] == date_with(ordinal(y, {_SC_M}, {_SC_D0}), 0) and '
+                       f'result.future_value[1] == date_with(ordinal(y, {_SC_M}, {_SC_D1}), 0) and '
+                       'result.past_value[0] == result.future_value[0] and result.past_value[1] == result.future_value[1]')],
+             note='days 1..28; the first of the four patterns matches the whole text (the other three are tried only when it does not)'),
+    Contract('dp.dateperiod.simple_case.no_year', BDP + '_parse_simple_case', ['C09'],
+             params=dict(month_str=Str(), d0s=Str(), d1s=Str(), self=_SC_PARSER, source=Str(), reference=DateTime(1950, 2090, midnight=True)),
+             requires=['month_str != ""', 'month_str in self.config.month_of_year', 'd0s in self.config.day_of_month',
+                       'd1s in self.config.day_of_month', f'{_SC_D0} <= {_SC_D1}', f'{_SC_D1} <= 28'],
+             regex_env=_sc_rx('None'),
+             ensures=[('timex-leaves-the-year-open',
+                       f'result.success and result.timex == "(XXXX-" + fmt({_SC_M}, 2) + "-" + fmt({_SC_D0}, 2) + ",XXXX-" + fmt({_SC_M}, 2) + '
+                       f'"-" + fmt({_SC_D1}, 2) + ",P" + str({_SC_D1} - {_SC_D0}) + "D)"'),
+                      ('future-range-starts-on-or-after-the-reference-past-range-before-it',
+                       f'result.future_value[0] == date_with(earliest_on_or_after({_SC_M}, {_SC_D0}, ordinal_of(reference), reference.year), 0) and '
+                       f'result.past_value[0] == date_with(latest_before({_SC_M}, {_SC_D0}, ordinal_of(reference), reference.year), 0)'),
+                      ('both-ends-in-the-same-year',
+                       'result.future_value[1].year == result.future_value[0].year and result.past_value[1].year == result.past_value[0].year')],
+             note='midnight reference (the non-midnight comparison is the KF-C09-1 family)'),
+]
+
+# ---- "between march 5 and march 20": two date entities merged into one range (C11: start never after end)
+_M2_DT = lambda: DateTime(1950, 2090, midnight=True)
+_M2_PR = _PR(_RES(future_value=_M2_DT(), past_value=_M2_DT()), Str())
+_M2_CFG = Config(values=dict(token_before_date=Const('on '),
+                             date_extractor=Config(funcs=dict(extract=Returns(ListOf(ER(), 2)))),
+                             date_parser=Config(funcs=dict(parse=Returns(_M2_PR))),
+                             future_regex=Config(funcs=dict(match=Returns(Const(None))))))
+_SUB = lambda k: f'result.sub_date_time_entities[{k}].value'
+CONTRACTS += [
+    Contract('dp.env.get_year_context.none', BDP + 'get_year_context', ['C11'],
+             returns=Rec(DT + 'utilities.py::DateContext', dict(year=Const(-2147483648))),
+             params=dict(self=Opaque(), config=Opaque(), start_date_str=Opaque(), end_date_str=Opaque(), text=Opaque()), ensures=[],
+             assumed='no year is written anywhere in the range text (empty date context)'),
+    Contract('dp.env.generate_date_period_timex_str', DT + 'utilities.py::TimexUtil.generate_date_period_timex_str', ['C11'], returns=Str(),
+             params=dict(begin=Opaque(), end=Opaque(), timex_type=Opaque(), timex1=Opaque(), timex2=Opaque()), ensures=[],
+             assumed='the TIMEX text of the range is built elsewhere (C10 contracts); only the values are followed here'),
+    Contract('dp.env.merge_timex_alternatives', DT + 'utilities.py::TimexUtil.merge_timex_alternatives', ['C11'], returns=Str(),
+             params=dict(timex1=Opaque(), timex2=Opaque()), ensures=[], assumed='as above'),
+    Contract('dp.dateperiod.merge_two_time_points', BDP + '_merge_two_times_points', ['C11', 'C09'],
+             modular=['id:dp.env.get_year_context.none', 'id:dp.env.generate_date_period_timex_str', 'id:dp.env.merge_timex_alternatives'],
+             params=dict(self=Rec(DT + 'base_dateperiod.py::BaseDatePeriodParser', dict(config=_M2_CFG, _inclusive_end_period=Const(False))),
+                         source=Str(), reference=DateTime(1950, 2090)),
+             regex_env={'week_with_week_day_range_regex': 'none'},
+             ensures=[('both-values-run-forward-when-the-candidates-of-the-two-ends-allow-it',
+                       f'implies({_SUB(0)}.past_value <= {_SUB(1)}.future_value and not ({_SUB(0)}.future_value.month == 2 and {_SUB(0)}.future_value.day == 29) and '
+                       f'not ({_SUB(1)}.future_value.month == 2 and {_SUB(1)}.future_value.day == 29), '
+                       'result.success and result.future_value[0] <= result.future_value[1] and result.past_value[0] <= result.past_value[1])'),
+                      ('ends-are-candidates-of-the-two-entities',
+                       f'(result.future_value[0] == {_SUB(0)}.future_value or result.future_value[0] == {_SUB(0)}.past_value) and '
+                       f'result.future_value[1] == {_SUB(1)}.future_value and result.past_value[0] == {_SUB(0)}.past_value and '
+                       f'(result.past_value[1] == {_SUB(1)}.past_value or result.past_value[1] == {_SUB(1)}.future_value)')],
+             note='two extracted dates, parsed values arbitrary; 29 February candidates (year synchronisation) are outside this contract'),
+]
+
+# ---- the list of date patterns is tried in order and the FIRST pattern covering the whole text decides (C06: month-first vs
+#      day-first numeric layouts are two patterns of the same list; their order is the culture's reading of "5/3/1987")
+_BRM_PARSER = Rec(DT + 'base_date.py::BaseDateParser', dict(config=Config(values=dict(date_regex=Const(['rxA', 'rxB']),
+                                                                                      date_token_prefix=Const('on ')))))
+CONTRACTS += [
+    Contract('dp.env.match_to_date.identity', BD + 'match_to_date', ['C06'], returns=Expr('match'),
+             params=dict(self=Opaque(), match=Opaque(), reference=Opaque()), ensures=[],
+             assumed='stand-in that hands the chosen match back, so that the caller contract can say WHICH match was resolved '
+                     '(match_to_date itself: dp.match_to_date.*)'),
+    Contract('dp.basic_regex_match.first_covering_pattern_decides', BD + 'parse_basic_regex_match', ['C06'],
+             modular=['id:dp.env.match_to_date.identity'],
+             params=dict(self=_BRM_PARSER, source=Str(), reference=DateTime(1950, 2090)),
+             requires=['source == source.strip()'],
+             regex_env={'rxA': {'mode': 'full'}, 'rxB': {'mode': 'full'}},
+             ensures=[('the-first-pattern-decides', 'result is env_matches("rxA")[0]')]),
+    Contract('dp.basic_regex_match.later_pattern_when_the_first_does_not_match', BD + 'parse_basic_regex_match', ['C06'],
+             modular=['id:dp.env.match_to_date.identity'],
+             params=dict(self=_BRM_PARSER, source=Str(), reference=DateTime(1950, 2090)),
+             requires=['source == source.strip()'],
+             regex_env={'rxA': 'none', 'rxB': {'mode': 'full'}},
+             ensures=[('the-second-pattern-decides', 'result is env_matches("rxB")[0]')]),
+]
